@@ -73,6 +73,22 @@ func (pnf *PageNumberFinder) FindPagination(root *html.Node, pageURL *nurl.URL) 
 	strPageURL := stringutil.UnescapedString(&url)
 	escPageURL := url.String() // page URLs of links are kept in their escaped form
 
+	// The detector may add the document itself to the list of pages. It does so without
+	// the user info, and with the slash that ends the path dropped once more.
+	anonURL := url
+	anonURL.User = nil
+	pageURLs := map[string]struct{}{}
+	for _, strURL := range []string{strPageURL, escPageURL, stringutil.UnescapedString(&anonURL), anonURL.String()} {
+		pageURLs[strURL] = struct{}{}
+		if url.RawQuery == "" && url.Fragment == "" {
+			pageURLs[strings.TrimSuffix(strURL, "/")] = struct{}{}
+		}
+	}
+	isPageURL := func(strURL string) bool {
+		_, exist := pageURLs[strURL]
+		return exist
+	}
+
 	// Relative links must be resolved against the URL as it was supplied: with the
 	// trailing slash trimmed, "3/" on ".../b/2/" would resolve to ".../b/3" instead
 	// of ".../b/2/3".
@@ -91,7 +107,7 @@ func (pnf *PageNumberFinder) FindPagination(root *html.Node, pageURL *nurl.URL) 
 	if pagination.NextPage == "" && nPageInfo > 0 {
 		for i := nPageInfo - 1; i >= 0; i-- {
 			currentInfo := paramInfo.AllPageInfo[i]
-			if currentInfo.URL != strPageURL && currentInfo.URL != escPageURL {
+			if !isPageURL(currentInfo.URL) {
 				pagination.PrevPage = currentInfo.URL
 				break
 			}
@@ -112,7 +128,7 @@ func (pnf *PageNumberFinder) FindPagination(root *html.Node, pageURL *nurl.URL) 
 
 		for i := nextPageIdx - 1; i >= 0; i-- {
 			currentURL := paramInfo.AllPageInfo[i].URL
-			if currentURL == "" || (currentURL != strPageURL && currentURL != escPageURL) {
+			if currentURL == "" || !isPageURL(currentURL) {
 				pagination.PrevPage = currentURL
 				break
 			}
